@@ -20,11 +20,13 @@ def sh(cmd, **kw):
 
 
 def main():
-    import fcntl
-    lk = open("/tmp/seedtest.lock", "w")
-    fcntl.flock(lk, fcntl.LOCK_EX)
     res, sid, props = sys.argv[1], sys.argv[2], sys.argv[3:]
     wt = f'/tmp/seedwt_{sid}'
+    work = f'/tmp/seedwork_{sid}'
+    shutil.rmtree(work, ignore_errors=True)
+    os.makedirs(work)
+    # private copy of the lean project (incl. build products) so Gen/ is not shared with other runs
+    sh(f'cp -a {VERIF}/lean {work}/lean && mkdir -p {work}/.cache {work}/evidence {work}/replays')
     sh(f'git -C /repo worktree remove --force {wt}')
     r = sh(f'git -C /repo worktree add --detach {wt} HEAD')
     assert r.returncode == 0, r.stderr
@@ -42,7 +44,7 @@ def main():
             d1 = sh(f'cd {wt} && /venv/bin/python {res}/demo.py', env=env, timeout=1800)
             out['demo_patched'] = {'rc': d1.returncode, 'tail': (d1.stdout + d1.stderr)[-400:]}
             for p in props:
-                e2 = dict(os.environ, FINVERIF_REPO=wt)
+                e2 = dict(os.environ, FINVERIF_REPO=wt, FINVERIF_WORK=work)
                 c = sh(f'cd {VERIF} && ./check {p} --tier quick', env=e2, timeout=3600)
                 lines = [l for l in c.stdout.split('\n') if l.startswith('VIOLATION') or l.startswith(p + ' [')]
                 replay = None
@@ -50,9 +52,9 @@ def main():
                     if l.startswith('VIOLATION') and 'replay=' in l:
                         replay = l.split('replay=')[1].split()[0]
                 first = None
-                if replay and os.path.exists(os.path.join(VERIF, replay)):
+                if replay and os.path.exists(os.path.join(work, replay)):
                     try:
-                        rp = json.load(open(os.path.join(VERIF, replay)))
+                        rp = json.load(open(os.path.join(work, replay)))
                         first = {'kind': rp.get('kind'), 'what': (rp.get('violation') or {}).get('what'),
                                  'case': (rp.get('violation') or {}).get('case'), 'broken': rp.get('broken', [])[:3]}
                     except Exception as ex:  # noqa: BLE001
@@ -61,6 +63,7 @@ def main():
     finally:
         sh(f'git -C /repo worktree remove --force {wt}')
         shutil.rmtree(wt, ignore_errors=True)
+        shutil.rmtree(work, ignore_errors=True)
     dst = os.path.join(VERIF, 'seeded', sid)
     os.makedirs(dst, exist_ok=True)
     for f in ('patch.diff', 'demo.py', 'meta.json', 'demo_output.txt'):
